@@ -317,6 +317,29 @@ fn timers_property(tier: Tier) -> i32 {
             size: f.history.len(),
         });
     }
+    // concurrent creation under the controlled scheduler (atomic operations are schedule points)
+    let mut kfound = vec![];
+    let kconfigs: Vec<(usize, usize, usize)> = if tier == Tier::Thorough { vec![(2, 1, 3), (2, 2, 3), (2, 3, 2), (3, 1, 2), (3, 2, 2)] } else { vec![(2, 1, 2), (2, 2, 2), (3, 1, 1)] };
+    let kres = timers::concurrent::explore(&kconfigs, &mut kfound);
+    let mut concurrent_executions = 0u64;
+    for (threads, per_thread, r) in &kres {
+        if r.violations.is_empty() && (r.executions < 3 || r.distinct_results < 2) {
+            mc_kit::machinery_error(&format!(
+                "vacuous: concurrent timer creation ({threads} threads x {per_thread}) gave {} executions and {} distinct id assignments - are the atomic operations of crux_time schedule points?",
+                r.executions, r.distinct_results
+            ));
+        }
+        concurrent_executions += r.executions;
+        total.states += r.decisions;
+        total.transitions += r.decisions;
+        total.histories += r.executions;
+        per.push(json!({"api": "command API, concurrent creation from real threads under the controlled scheduler (every atomic operation of crux_time / crux_core is a schedule point)",
+            "threads": threads, "timers_per_thread": per_thread, "preemption_bound_completed": r.bound_completed, "executions": r.executions,
+            "scheduling_decisions": r.decisions, "distinct_id_assignments": r.distinct_results}));
+    }
+    for f in kfound {
+        rep.violation(mc_kit::Violation { key: f.key.clone(), what: f.what.clone(), replay: timers::concurrent::case_json(&f), size: f.choices.len() });
+    }
     total.states += cst.states;
     total.transitions += cst.transitions;
     total.histories += cst.histories;
@@ -337,6 +360,7 @@ fn timers_property(tier: Tier) -> i32 {
         "rule": "states = nodes of the history trees over the alphabet {poll, shell fires, app clears, handle dropped, request dropped, clear answered, clear request dropped, duplicate and late answers}, each followed by an observation or not (unobserved steps bounded), for 1-2 timers created with notify_after / notify_at; every node re-executed on fresh real timers and compared with the per-timer protocol machine of the property; distinct_nontrivial = distinct vectors of final outcomes (none / completed / cleared per timer). Timer ids of every timer created during the whole run (one set per process, filled from 16 worker threads) must be pairwise distinct.",
         "configurations": per,
         "timer_ids_checked_for_uniqueness": total.ids_seen,
+        "concurrent_creation_executions": concurrent_executions,
         "exhaustive": true,
         "samples": samples,
     });
@@ -345,7 +369,7 @@ fn timers_property(tier: Tier) -> i32 {
         coverage,
         &[
             "answers of the wrong kind or with another timer's id are outside the property's quantifier (they are covered by C12's known findings)",
-            "uniqueness under concurrent allocation is observed from 16 free-running worker threads, not explored by the controlled scheduler (one fetch_add)",
+            "uniqueness under concurrent allocation: every schedule of 2-3 creating threads up to the stated preemption bound, with switches at the atomic and lock operations of crux_time / crux_core (instrumented types in verification builds), under sequential consistency; in addition all ids of the run (16 free-running workers) go into one set",
         ],
     )
 }
@@ -367,6 +391,9 @@ fn main() {
                 errs.push(e);
             }
             if let Err(e) = sched::canary() {
+                errs.push(e);
+            }
+            if let Err(e) = timers::concurrent::canary() {
                 errs.push(e);
             }
             if let Err(e) = timers::canary() {
